@@ -269,9 +269,102 @@ Proof.
     intros x Hx. destruct (bystander_chain s VI o G k e He Hd Nt x Hx) as [B1 B2]. split; [|exact B2].
     intros Tc. apply B1. right. exact Tc.
 Qed.
+
+(* ---------------- 4. directory chains stay readable ---------------- *)
+Lemma chain_keeps_prefix t t' m : chain_wf P limit t m -> (forall c, List.In c (removelast m) -> get t' c = get t c) ->
+  forall fuel, (length m <= fuel)%nat -> m <> [] -> exists ext, chain P t' fuel (hd 0 m) = m ++ ext.
+Proof.
+  intros [Nd R L E] Fr. clear Nd E. induction m as [|a r IH]; intros fuel Lf Hn; [congruence|].
+  destruct fuel as [|fuel]; [cbn in Lf; lia|]. cbn [hd chain].
+  destruct (R a (or_introl eq_refl)) as (A1 & _ & _ & A4).
+  destruct (N.leb_spec (min_valid P) a); [|lia]. destruct (N.leb_spec a (max_valid P)); [|lia]. cbn [andb].
+  destruct r as [|b r']; [exists (chain P t' fuel (get t' a)); reflexivity|].
+  destruct L as [L1 L2]. rewrite Fr by (left; reflexivity). rewrite L1.
+  destruct (IH (fun c H => R c (or_intror H)) L2) with (fuel := fuel) as (ext & Ex).
+  - intros c Hc. apply Fr. right. exact Hc.
+  - cbn [length] in *. lia.
+  - discriminate.
+  - cbn [hd] in Ex. rewrite Ex. exists ext. reflexivity.
+Qed.
+Lemma removelast_not_last (m : list N) : NoDup m -> m <> [] -> ~ List.In (last m 0) (removelast m).
+Proof.
+  intros Nd Hn H. rewrite (split_last m 0 Hn) in Nd. apply NoDup_app_inv in Nd. destruct Nd as (_ & _ & Dj).
+  apply (Dj _ H). left. reflexivity.
+Qed.
+Lemma In_removelast (m : list N) x : List.In x (removelast m) -> List.In x m.
+Proof.
+  induction m as [|a [|b r] IH]; [intros []|intros []|]. intros H.
+  change (removelast (a :: b :: r)) with (a :: removelast (b :: r)) in H.
+  destruct H as [H|H]; [left; exact H|right; apply IH, H].
+Qed.
+Lemma growdir_last s o x : VolInv s -> List.In x (growdir upper V s o) ->
+  exists g, in_store s g /\ chn V (v_fat s) (dir_start V g) <> [] /\ x = last (chn V (v_fat s) (dir_start V g)) 0.
+Proof.
+  intros VI. assert (F : forall p, List.In x (grow_of upper V s p) ->
+    exists g, in_store s g /\ chn V (v_fat s) (dir_start V g) <> [] /\ x = last (chn V (v_fat s) (dir_start V g)) 0).
+  { intros p. unfold grow_of. destruct (resolve s p) as [[| |i e]|err]; try (intros []).
+    destruct (resolve s (parent p)) as [pr|err] eqn:Rp; [|intros []]. destruct (r_isdir pr) eqn:Dp; [|intros []].
+    destruct (dir_cap V (r_index pr)); [intros []|]. intros H. exists (r_index pr).
+    fold (chn V (v_fat s) (dir_start V (r_index pr))) in H. destruct (chn V (v_fat s) (dir_start V (r_index pr))) as [|a r] eqn:E; [destruct H|].
+    cbn [last_opt] in H. destruct H as [<-|[]]. split; [|split; [discriminate|reflexivity]].
+    apply (cur_dir_store upper V s pr VI); [|exact Dp]. apply (resolve_ok upper s _ _ Rp). intros ->. discriminate. }
+  destruct o; cbn [growdir]; try (intros []); apply F.
+Qed.
+
+(* every directory of the start state, except the one rmdir removes: the chain it had is a prefix of
+   its chain at every crash point (equal unless it receives the new entry): the records in its
+   clusters stay where a reader finds them *)
+Theorem dir_chains_readable s o n d : VolInv s -> op_guard upper s o -> in_store s d ->
+  ~ (exists p, o = ORmdir p /\ Dset upper V s o d) ->
+  exists ext, chn V (v_fat (prefix_state s o n)) (dir_start V d) = chn V (v_fat s) (dir_start V d) ++ ext.
+Proof.
+  intros VI G Id Nr. pose proof (micro_good upper V PW s VI o G) as Gd. unfold goodo in Gd.
+  pose proof (Invo_start upper V s VI o) as I0. unfold Invo in I0.
+  pose proof (good_inv upper s _ _ _ _ _ s _ I0 Gd n) as Iv. fold (prefix_state s o n) in Iv.
+  set (sn := prefix_state s o n) in *. set (m := chn V (v_fat s) (dir_start V d)).
+  destruct (nil_or_ne m) as [Em|Hn].
+  { exists []. rewrite Em. cbn [app]. apply (chn_nil_same V (v_fat s)). exact Em. }
+  pose proof (dir_chain_wf upper V s d VI Id) as W. fold m in W.
+  destruct (owners_split_dir s d Id) as (O' & Pm & Of & Od).
+  assert (Hd : hd 0 m = dir_start V d).
+  { unfold m in *. destruct (chn_cases V (v_fat s) (dir_start V d)) as [[E _]|(r & E & _)]; [congruence|rewrite E; reflexivity]. }
+  assert (Fr : forall c, List.In c (removelast m) -> get (ftbl (v_fat sn)) c = get (ftbl (v_fat s)) c).
+  { intros c Hc. pose proof (In_removelast m c Hc) as Hm. apply (iv_frame _ _ _ _ _ _ _ Iv c).
+    - intros [Z|Tc]; [apply (chain_nonzero P limit _ _ (POK V) W c Hm Z)|].
+      destruct (tchain_cases s o G c Tc) as (p & idx & te & Hp & R & Hte).
+      destruct (found_in upper s p idx te R) as (pr & Rp & Dp & L & Ec & Ei).
+      assert (Ht : List.In te (lives_of s (r_index pr))) by apply (lookup_In upper _ _ _ L).
+      destruct (is_dir te) eqn:Dt.
+      + destruct (vi_subdirs _ _ _ VI _ te Ht Dt) as (Nz & _ & Ic & _).
+        assert (Ed : dir_start V (e_clu te) = e_clu te) by (unfold dir_start; destruct (N.eqb_spec (e_clu te) 0); [contradiction|reflexivity]).
+        destruct (N.eq_dec (e_clu te) d) as [Ecd|Ncd].
+        * (* a directory chain among the target chains: only rmdir frees one *)
+          apply Nr. destruct o as [q mo ac|q|q|q|q q']; cbn [tchain targets] in *.
+          -- unfold file_chain in Tc. destruct Hp as [<-|[]]. rewrite R, Dt in Tc. destruct Tc.
+          -- unfold file_chain in Tc. destruct Hp as [<-|[]]. rewrite R, Dt in Tc. destruct Tc.
+          -- destruct Tc.
+          -- exists q. split; [reflexivity|]. destruct Hp as [<-|[]]. cbn [Dset]. rewrite R. split; assumption.
+          -- unfold file_chain in Tc. destruct (resolve s q') as [[| |i2 e2]|err] eqn:R2; try destruct Tc.
+             destruct (is_dir e2) eqn:D2; [destruct Tc|]. cbn [Bool.eqb] in Tc.
+             (* c lies in the chain of the FILE e2 and in the chain of directory d *)
+             destruct (found_in upper s q' i2 e2 R2) as (pr2 & _ & _ & L2 & _ & _).
+             assert (H2 : List.In e2 (lives_of s (r_index pr2))) by apply (lookup_In upper _ _ _ L2).
+             exfalso. apply (disjoint_from s VI _ O' (e_clu e2) c Pm (Of _ e2 H2 D2) Hm Tc).
+        * apply (disjoint_from s VI _ O' (dir_start V (e_clu te)) c Pm (Od _ Ic Ncd) Hm). rewrite Ed. exact Hte.
+      + apply (disjoint_from s VI _ O' (e_clu te) c Pm (Of _ te Ht Dt) Hm Hte).
+    - intros Gl. destruct (growdir_last s o c VI Gl) as (g & Ig & Ng & Ec).
+      destruct (N.eq_dec g d) as [->|Ngd].
+      + fold m in Ec. rewrite Ec in Hc. apply (removelast_not_last m (cw_nodup _ _ _ _ W) Hn Hc).
+      + apply (disjoint_from s VI _ O' (dir_start V g) c Pm (Od _ Ig Ngd) Hm). rewrite Ec. apply last_In, Ng. }
+  unfold chn, chain_of at 1. rewrite <- Hd. apply (chain_keeps_prefix _ _ m W Fr); [|exact Hn].
+  rewrite (iv_len _ _ _ _ _ _ _ Iv).
+  pose proof (NoDup_len_le m (ftbl (v_fat s)) (cw_nodup _ _ _ _ W)
+                (fun c Hc => proj1 (proj2 (proj2 (cw_range _ _ _ _ W c Hc))))) as Le. unfold len in Le. lia.
+Qed.
 End Main.
 
 Print Assumptions micro_refines_step.
 Print Assumptions bystanders_intact.
 Print Assumptions bystander_paths_resolve.
 Print Assumptions prefix_inv_weak.
+Print Assumptions dir_chains_readable.
